@@ -203,7 +203,24 @@ def sweep_commands(ctx, prop):
                     r.bad(key_of(fn, f"spawns unknown command {m.group(1)} {first} {second}".strip()), fn.loc(node), f"`{txt[:60]}`: no click command `{name}` is defined under jade/cli", "spawned command exists")
                     continue
                 f, opts = cmds[name]
-                used = set(re.findall(r"(?<![\w-])(--?[a-zA-Z][a-zA-Z0-9-]*)", txt.split(name, 1)[1]))
+                # fragments appended later to the same local (`cmd += " --verbose"`): each must start with a blank (else it is
+                # glued onto the previous token) and its options are checked like the initial ones
+                par = ctx.parents(fn).get(id(node))
+                frag_txt = ""
+                if isinstance(par, (ast.Assign, ast.AugAssign)) and isinstance((par.targets[0] if isinstance(par, ast.Assign) else par.target), ast.Name):
+                    cv = (par.targets[0] if isinstance(par, ast.Assign) else par.target).id
+                    for aug in iter_own(fn.node):
+                        if isinstance(aug, ast.AugAssign) and isinstance(aug.op, ast.Add) and isinstance(aug.target, ast.Name) and aug.target.id == cv and aug is not par:
+                            lead = aug.value.values[0].value if isinstance(aug.value, ast.JoinedStr) and aug.value.values and isinstance(aug.value.values[0], ast.Constant) else (aug.value.value if isinstance(aug.value, ast.Constant) else None)
+                            if isinstance(lead, str):
+                                if not lead.startswith(" "):
+                                    r.bad(key_of(fn, f"{name} fragment `{lead[:20]}` glued to the previous token"), fn.loc(aug),
+                                          f"`{ctx.src(aug)}` appends to the `{m.group(1)} {name}` command line without a separating blank: the command becomes `... <last argument>{lead.strip()}` and fails with a usage error "
+                                          "(the caller ignores the return code)", "spawned command accepts the options passed")
+                                else:
+                                    r.ok(f"{fn.short}: fragment `{lead.strip()[:20]}` is blank-separated")
+                                frag_txt += " " + ctx.src(aug.value)
+                used = set(re.findall(r"(?<![\w-])(--?[a-zA-Z][a-zA-Z0-9-]*)", txt.split(name, 1)[1] + frag_txt))
                 for o in sorted(used):
                     if "*" in opts or o in opts:
                         r.ok(f"{fn.short}: `{name} {o}` exists")
